@@ -503,6 +503,12 @@ class SqlImpl(TableImpl):
                 for name, uid, val in zip(nd.names, nd.uuids, nd.values, strict=True)
             }
             query.group_by.extend(col._uuid for col in query.partition_by if not types.is_const(col.dtype()))
+            if query.partition_by and not query.group_by:
+                # Only constant grouping columns: they are not put into GROUP BY, but a
+                # grouped summarize of an empty table has no row.
+                non_empty = ColFn(ops.count_star) > LiteralCol(0)
+                non_empty.ftype(agg_is_window=False)
+                query.having.append(non_empty)
             # a grouping column whose name is reused by an aggregate is replaced by it
             overwritten = set(nd.names)
             query.select = [
